@@ -11,7 +11,11 @@ import os
 import re
 from concurrent.futures import ThreadPoolExecutor
 
+import sys
+
 import vlib
+
+sys.path.insert(0, os.path.dirname(os.path.abspath(__file__)))
 
 LEVEL = "model_checking"
 
@@ -100,8 +104,68 @@ def sweep(ctx, drv, cfg, histfile, hists, seed, bursts):
     return nruns, len(evs), calls, deaths
 
 
+def encrypt_compaction_faults(ctx, quick):
+    """The histories above stay below encrypt's compaction threshold (101 small meta blobs). The fault family of C11
+    (checks/c11.py, Encrypt.tla's failing actions, Trace_Encrypt) injects a transient error - without or after its
+    effect - at every lower-layer call class of the receive that triggers a compaction and of the compaction job,
+    lets the store go on, restarts it with the index kept or wiped (= the store's own recovery: meta re-scan) and
+    demands every acknowledged blob back.  It is run here too, reported under this property."""
+    import c11 as _c11
+    drv11 = ctx.build("c11")
+    rc, so, se = ctx.run([drv11, "-limit"], timeout=60)
+    _c11.LIMIT["Limit"] = re.search(r"limit=(\d+)", so).group(1)
+    _c11.LIMIT["Full"] = re.search(r"full=(\d+)", so).group(1)
+    ctx._cfg(_c11.TRACE[1], dict(_c11.LIMIT))
+    scns = ctx.tlc_gen("EncryptGen", "EncryptGen.cfg", overrides=dict(_c11.LIMIT, Tier='"quick"' if quick else '"thorough"'), tag="SCN")
+    scns = [dict(x, restarts=x.get("restarts") or []) for x in scns if x["kind"] == "fault"]
+    if not scns:
+        raise vlib.MachineryError("EncryptGen produced no fault scenario")
+    nsh = 4 if quick else 8
+    shards = [scns[i::nsh] for i in range(nsh)]
+    segs = lines = 0
+
+    class Under13(object):
+        """discrepancies of the shared family are reported with this property's name"""
+        def __init__(self, c):
+            self.c = c
+
+        def __getattr__(self, k):
+            return getattr(self.c, k)
+
+        def discrepancy(self, sig, what, replay=None):
+            if isinstance(replay, dict):
+                replay = dict(replay, property="C13", family="encrypt-compaction")
+            return self.c.discrepancy(sig.replace("C11/", "C13/", 1), what, replay)
+    proxy = Under13(ctx)
+    with ThreadPoolExecutor(max_workers=nsh) as ex:
+        for res in ex.map(lambda kp: _c11.run_shard(proxy, drv11, "c13f%d" % kp[0], kp[1], ctx.seed, keep=False), enumerate(shards)):
+            segs += res["segments"]
+            lines += res["lines"]
+            for c in res["classes"]:
+                if c.startswith("fault@"):
+                    ctx.distinct("encrypt-compaction|" + c.split("/wipe=")[0])
+            for seg, idx, why in res["fails"]:
+                _c11.classify(proxy, seg, idx, why, "G-fault")
+    ctx.count("G", encrypt_compaction_fault_scenarios=len(scns), encrypt_compaction_segments=segs)
+    return segs, lines
+
+
 def run(ctx, replay):
     drv = ctx.build("c13")
+    if replay and json.load(open(replay)).get("family") == "encrypt-compaction":
+        import c11 as _c11
+        rp = json.load(open(replay))
+        drv11 = ctx.build("c11")
+        rc, so, se = ctx.run([drv11, "-limit"], timeout=60)
+        _c11.LIMIT["Limit"] = re.search(r"limit=(\d+)", so).group(1)
+        _c11.LIMIT["Full"] = re.search(r"full=(\d+)", so).group(1)
+        ctx._cfg(_c11.TRACE[1], dict(_c11.LIMIT))
+        res = _c11.run_shard(ctx, drv11, "replay", [rp["scenario"]], rp.get("seed", ctx.seed))
+        for seg, idx, why in res["fails"]:
+            ctx.discrepancy(rp.get("signature", "C13/encrypt/fault/replay"), "replayed scenario rejected again at line %d: %s" % (idx, why), None)
+        ctx.cov["traces_validated_against_impl"] += res["segments"]
+        ctx.cov["evaluations"] += res["lines"]
+        return
     if replay:
         rp = json.load(open(replay))
         hf = ctx.path("h.jsonl")
@@ -153,6 +217,9 @@ def run(ctx, replay):
             allcalls |= set(c[0] for c in calls)
             ctx.count("G", **{"runs:" + cfg: nruns})
     ctx.sample({"faulted_lower_calls": sorted(x for x in allcalls if x)[:40]})
+    s2, e2 = encrypt_compaction_faults(ctx, quick)
+    tr += s2
+    te += e2
     ctx.cov["traces_validated_against_impl"] = tr
     ctx.cov["evaluations"] = te
     ctx.cov["exhaustive"] = True
